@@ -34,7 +34,7 @@ TECHNIQUE = 'history check on the live object (differential run against an in-or
 SHARD_TIMEOUT = {'quick': 500, 'thorough': 3000}
 
 NSHARDS = 16
-COUNTS = {'quick': 70, 'thorough': 560}
+COUNTS = {'quick': 30, 'thorough': 400}
 FAMS = ['exp', 'osc', 'ysq', 'ysqm', 'tri', 'cosx', 'xy', 'poly']
 PRECS_Q = [30, 40, 53, 64, 80, 100, 113]
 PRECS_T = [30, 40, 53, 64, 80, 100, 113, 150, 200]
@@ -121,7 +121,7 @@ def gen_case(r, i, tier):
     x0 = dyadic(r, -2, 2, 8)
     X = Fr(r.choice([1, 3, 10]))
     if fam == 'ysq':
-        X = min(X, Fr(3, 4) / y0)
+        X = min(X, Fr(int(Fr(3, 4) / y0 * 64), 64))        # at most 3/4 of the way to the pole, on the dyadic grid
     opt = (i // (len(FAMS) * 2)) % 4
     tolk = None
     degree = None
